@@ -1,4 +1,4 @@
-From Verif Require Import Lib.Base Sched.Elect Sched.ElectSpec Sched.ElectLemmas Sched.ElectProofs Sched.ElectProofs2 Sched.CommitteeProofs Sched.ElectCheck.
+From Verif Require Import Lib.Base Sched.Elect Sched.ElectSpec Sched.ElectLemmas Sched.ElectProofs Sched.ElectProofs2 Sched.CommitteeProofs Sched.EngineProofs Sched.ElectCheck.
 From Coq Require Import Permutation.
 
 (* Every elected validator is a registered, unexpired, unfrozen node with the
@@ -35,7 +35,7 @@ Theorem validators_by_descending_stake :
     is_perm pn (length (vcands p ents epoch nodes)) ->
     1 <= p_per p -> p_bypass p = false ->
     elect_validators p ents epoch nodes pe pn = VOk vals vents ->
-    by_descending_stake p ents epoch nodes vals.
+    by_descending_stake p ents epoch nodes no_extra vals.
 Proof. exact ElectProofs2.validators_by_descending_stake. Qed.
 Print Assumptions validators_by_descending_stake.
 
@@ -60,7 +60,8 @@ Theorem elect_deterministic :
     Permutation (i_ents i) (i_ents i') -> NoDup (map e_addr (i_ents i)) ->
     i_params i = i_params i' -> i_epoch i = i_epoch i' -> i_rts i = i_rts i' ->
     i_perm_e i = i_perm_e i' -> i_perm_n i = i_perm_n i' -> i_perm_c i = i_perm_c i' ->
-    i_current i = i_current i' -> i_fv261 i = i_fv261 i' ->
+    i_current i = i_current i' -> i_fv261 i = i_fv261 i' -> i_vrf i = i_vrf i' ->
+    i_base i = i_base i' -> i_changed i = i_changed i' -> i_slashed i = i_slashed i' ->
     run_epoch i = run_epoch i'.
 Proof. exact ElectProofs2.elect_deterministic. Qed.
 Print Assumptions elect_deterministic.
@@ -86,45 +87,130 @@ Proof. exact ElectProofs2.elect_powers_nonzero. Qed.
 Print Assumptions elect_powers_nonzero.
 
 (* A committee exists only for a non-suspended (compute) runtime with a
-   non-zero group size and then has EXACTLY the configured worker and backup
-   sizes, workers first, only eligible nodes, at most MaxNodes per entity and
-   role, from a pool not below MinPoolSize -- for every index table. *)
+   non-zero group size (and, with the VRF backend, a strong alpha) and then has
+   EXACTLY the configured worker and backup sizes, workers first, only
+   eligible nodes, at most MaxNodes per entity and role, from a pool not below
+   MinPoolSize -- for every entropy index table AND for VRF sortition with
+   every hashed-beta function (ByBeta). *)
 Theorem committee_sound :
-  forall fv p ents vents epoch rt cnodes tw tb ms,
-    elect_committee fv p ents vents epoch rt cnodes tw tb = Some ms ->
-    committee_ok fv p ents vents epoch rt cnodes ms.
+  forall fv p ents vents epoch rt cnodes blocked sw sb ms,
+    elect_committee fv p ents vents epoch rt cnodes blocked sw sb = Some ms ->
+    committee_ok fv p ents vents epoch rt cnodes blocked sw sb ms.
 Proof. exact CommitteeProofs.committee_sound. Qed.
 Print Assumptions committee_sound.
 
-(* What "eligible" means for a committee member, spelled out. *)
+(* What "eligible" means for a committee member, spelled out (incl. the TEE
+   capability and, under sortition, the submitted VRF proof). *)
 Theorem committee_members_eligible :
-  forall fv p ents vents epoch rt nodes tw tb ms role id,
-    elect_committee fv p ents vents epoch rt (live_nodes epoch nodes) tw tb = Some ms ->
+  forall fv p ents vents epoch rt nodes cnodes blocked sw sb ms role id,
+    (forall n, In n cnodes -> In n (live_nodes epoch nodes)) ->
+    elect_committee fv p ents vents epoch rt cnodes blocked sw sb = Some ms ->
     In (role, id) ms ->
-    exists n cs,
+    exists n cs src,
       In n nodes /\ n_id n = id /\ n_freeze n = 0 /\ epoch <= n_exp n /\
-      ((role = ROLE_WORKER /\ cs = r_cw rt) \/ (role = ROLE_BACKUP /\ cs = r_cb rt)) /\
+      ((role = ROLE_WORKER /\ cs = r_cw rt /\ src = sw) \/ (role = ROLE_BACKUP /\ cs = r_cb rt /\ src = sb)) /\
       (p_bypass p = true \/ stake_ok ents (n_ent n) = true) /\
       has_role ROLE_COMPUTE n = true /\
-      (exists ver from, active_deployment epoch (r_deps rt) = Some (ver, from) /\
-                        In (r_id rt, ver, false) (n_rts n)) /\
+      (exists ver from tee, active_deployment epoch (r_deps rt) = Some (ver, from) /\
+                            In (r_id rt, ver, tee) (n_rts n) /\ tee_ok (r_tee rt) tee = true) /\
       suspended epoch (r_id rt) n = false /\
+      src_haspi src n = true /\
       (c_vset cs = true -> In (n_ent n) vents).
 Proof. exact CommitteeProofs.committee_members_eligible. Qed.
 Print Assumptions committee_members_eligible.
 
-(* The boolean checker evaluated on the implementation's output is sound. *)
+(* TEE eligibility: no capability for a non-TEE runtime; same hardware and a
+   verifying attestation for a TEE runtime. *)
+Theorem tee_ok_spec :
+  forall hw tee, tee_ok hw tee = true ->
+    (hw = 0 /\ tee = None) \/ (hw <> 0 /\ tee = Some (hw, true)).
+Proof. exact CommitteeProofs.tee_ok_spec. Qed.
+Print Assumptions tee_ok_spec.
+
+(* VRF backend, validators: soundness and limits for every beta function. *)
+Theorem elect_sound_vrf :
+  forall p ents epoch nodes pe pn beta vals vents,
+    elect_validators_vrf p ents epoch nodes pe pn beta = VOk vals vents ->
+    Forall (validator_ok p ents epoch nodes) vals /\
+    len vals <= N.max 1 (p_max p) /\ p_min p <= len vals /\ 1 <= len vals.
+Proof. exact ElectProofs.elect_sound_vrf. Qed.
+Print Assumptions elect_sound_vrf.
+
+Theorem elect_per_entity_vrf :
+  forall p ents epoch nodes pe pn beta vals vents,
+    is_perm pe (length (usort (map n_ent (vcands p ents epoch nodes)))) ->
+    elect_validators_vrf p ents epoch nodes pe pn beta = VOk vals vents ->
+    forall e, count_ent e vals <= p_per p.
+Proof. exact ElectProofs.elect_per_entity_vrf. Qed.
+Print Assumptions elect_per_entity_vrf.
+
+(* VRF backend: descending stake among the entities taking part in the shuffle
+   in use (all eligible ones in the entropy fallback; those with a submitted
+   proof under sortition), hashed betas pairwise distinct. *)
+Theorem validators_by_descending_stake_vrf :
+  forall p ents epoch nodes pe pn beta vals vents,
+    NoDup (map n_cons nodes) ->
+    is_perm pe (length (usort (map n_ent (vcands p ents epoch nodes)))) ->
+    is_perm pn (length (vcands p ents epoch nodes)) ->
+    (forall m n b, In m (vcands p ents epoch nodes) -> In n (vcands p ents epoch nodes) ->
+                   beta (n_id m) = Some b -> beta (n_id n) = Some b -> m = n) ->
+    1 <= p_per p -> p_bypass p = false ->
+    elect_validators_vrf p ents epoch nodes pe pn beta = VOk vals vents ->
+    by_descending_stake p ents epoch nodes (vrf_extra p beta (vcands p ents epoch nodes)) vals.
+Proof. exact ElectProofs2.validators_by_descending_stake_vrf. Qed.
+Print Assumptions validators_by_descending_stake_vrf.
+
+(* Every elected set is a map with non-zero powers (premises of diff_applies). *)
+Theorem core_keys_nodup :
+  forall p ents pe cands sh vals vents,
+    elect_core p ents pe cands sh = VOk vals vents -> NoDup (map fst (powers_of vals)).
+Proof. exact EngineProofs.core_keys_nodup. Qed.
+Print Assumptions core_keys_nodup.
+
+(* diff_applies lifted over successive epochs: after ANY sequence of blocks
+   (elections that succeed, fail or are skipped) the consensus engine holds
+   exactly the set the scheduler tracks as current. *)
+Theorem engine_tracks_elected :
+  forall bs cur eng,
+    NoDup (map fst cur) -> same_map eng cur -> blocks_ok cur bs ->
+    same_map (snd (run_blocks cur eng bs)) (fst (run_blocks cur eng bs)) /\
+    NoDup (map fst (fst (run_blocks cur eng bs))).
+Proof. exact EngineProofs.engine_tracks_elected. Qed.
+Print Assumptions engine_tracks_elected.
+
+(* The election trigger: an election happens iff the epoch is not the base
+   epoch and the epoch changed or stake was slashed in the block; rewards only
+   on an epoch change. *)
+Theorem should_elect_spec :
+  forall base epoch changed slashed,
+    (fst (should_elect base epoch changed slashed) = true <->
+       epoch <> base /\ (changed = true \/ slashed = true)) /\
+    (snd (should_elect base epoch changed slashed) = true <->
+       epoch <> base /\ changed = true).
+Proof. exact EngineProofs.should_elect_spec. Qed.
+Print Assumptions should_elect_spec.
+
+(* The boolean checkers evaluated on the implementation's output are sound. *)
 Theorem election_ok_b_sound :
-  forall p ents epoch nodes vals,
-    election_ok_b p ents epoch nodes vals = true -> election_ok p ents epoch nodes vals.
+  forall p ents epoch nodes extra vals,
+    election_ok_b p ents epoch nodes extra vals = true -> election_ok p ents epoch nodes extra vals.
 Proof. exact ElectCheck.election_ok_b_sound. Qed.
 Print Assumptions election_ok_b_sound.
+
+Theorem committee_ok_b_sound :
+  forall fv p ents vents epoch rt cnodes blocked sw sb ms,
+    committee_ok_b fv p ents vents epoch rt cnodes blocked sw sb ms = true ->
+    committee_ok fv p ents vents epoch rt cnodes blocked sw sb ms.
+Proof. exact CommitteeProofs.committee_ok_b_sound. Qed.
+Print Assumptions committee_ok_b_sound.
 
 Theorem impl_ok_b_sound :
   forall i vals ups comms,
     impl_ok_b i (EOk vals ups comms) = true ->
-    election_ok (i_params i) (sort_by e_addr (i_ents i)) (i_epoch i) (i_nodes i) vals /\
-    Permutation (apply_updates (i_current i) ups) (powers_of vals).
+    election_ok (i_params i) (sort_by e_addr (i_ents i)) (i_epoch i) (i_nodes i) (val_extra i) vals /\
+    Permutation (apply_updates (i_current i) ups) (powers_of vals) /\
+    comms_ok (i_fv261 i) (i_params i) (sort_by e_addr (i_ents i)) (map ent_of vals) (i_epoch i)
+      (committee_nodes i (sort_by n_id (i_nodes i))) (vrf_blocked i) (i_rts i) (committee_srcs i) comms.
 Proof. exact ElectCheck.impl_ok_b_sound. Qed.
 Print Assumptions impl_ok_b_sound.
 
